@@ -151,8 +151,9 @@ package raft
 //@   ensures [C20.conn-or-error] result1 != nil ==> result0 == nil
 //@   ensures [C20.pool-inv] PoolInv(pool)
 
+// (C01, C17: replies are matched to requests by their position on the connection; a connection whose exchange failed still owes a reply, so reusing it would hand a stale answer, e.g. a vote of an earlier election, to the next request)
 //@ func (*connPool).doRPC
-//@   props C15
+//@   props C01 C15
 //@   requires PoolInv(pool) && pool.resolver != nil && !tzero(deadline.wall, deadline.ext)
 // a second handshake on a checked connection could re-label it; the identity exchange belongs to getConn
 //@   requires [C20.no-rehandshake] !istype(req, *identityReq)
@@ -161,8 +162,8 @@ package raft
 //@   ghostcode after call returnConn 1: c.greturned := c.greturned + 1
 //@   ensures [C20.rpc-on-checked-conn] forall(x, Exch(x) != old(Exch(x)) ==> x == c && ConnChecked(x, pool))
 //@   ensures [C20.rpc-on-checked-conn] result0 == nil ==> c != nil && Exch(c) == old(Exch(c)) + 1
-//@   ensures [C15+C17.returned-only-after-complete-exchange] result0 == nil ==> ConnReturned(c) == old(ConnReturned(c)) + 1 && ConnClosed(c) == old(ConnClosed(c))
-//@   ensures [C15+C17.closed-otherwise] result0 != nil && c != nil ==> ConnClosed(c) && ConnReturned(c) == old(ConnReturned(c))
+//@   ensures [C01+C15+C17.returned-only-after-complete-exchange] result0 == nil ==> ConnReturned(c) == old(ConnReturned(c)) + 1 && ConnClosed(c) == old(ConnClosed(c))
+//@   ensures [C01+C15+C17.closed-otherwise] result0 != nil && c != nil ==> ConnClosed(c) && ConnReturned(c) == old(ConnReturned(c))
 //@   ensures [C15.no-conn-no-exchange] c == nil ==> result0 != nil && forall(x, Exch(x) == old(Exch(x)))
 //@   ensures [C15.other-conns-untouched] forall(x, x != c ==> ConnClosed(x) == old(ConnClosed(x)) && ConnReturned(x) == old(ConnReturned(x)))
 //@   ensures [C20.pool-inv] PoolInv(pool)
